@@ -188,7 +188,45 @@ def _iop(a, k):
     return s
 
 
+def deep_operands(rep: Report) -> None:
+    """operands nested a few hundred levels deep, under the interpreter's default recursion limit: wherever the named
+    constructor builds the node, the operator must build it too (an operator that renders or walks its operand -
+    for a message, a log line, a check - fails with RecursionError long before the constructor does)"""
+    import inspect
+    import sys
+    x, y = X.Variable("x"), X.Variable("y")
+    for depth in (300, 420):
+        deep = {"Minus": y, "Add": y, "Sine": y}
+        for _ in range(depth):
+            deep["Minus"] = X.Minus(deep["Minus"], X.Constant(1.0))
+            deep["Add"] = X.Add(deep["Add"], X.Constant(1.0))
+            deep["Sine"] = X.Sine(deep["Sine"])
+        pairs = [("+", lambda a, b: a + b, lambda a, b: X.Add(a, b)), ("-", lambda a, b: a - b, X.Minus), ("*", lambda a, b: a * b, lambda a, b: X.Multiply(a, b)),
+                 ("/", lambda a, b: a / b, X.Divide), ("**", lambda a, b: a ** b, X.Power), ("neg", lambda a, b: -b, lambda a, b: X.Negation(b)),
+                 ("**3", lambda a, b: b ** 3, lambda a, b: X.NthPower(b, 3))]
+        for name, d in deep.items():
+            for sym, op, ctor in pairs:
+                for side in ("right", "left"):
+                    a, b = (x, d) if side == "right" else (d, x)
+                    old = sys.getrecursionlimit()
+                    try:
+                        sys.setrecursionlimit(1000 + len(inspect.stack(0)))
+                        by_ctor = call(lambda: ctor(a, b))
+                        by_op = call(lambda: op(a, b))
+                    finally:
+                        sys.setrecursionlimit(old)
+                    rep.evaluations += 1
+                    rep.count("deep-operands", f"{sym}:{by_ctor[0]}/{by_op[0]}")
+                    if by_ctor[0] == "ok" and by_op[0] != "ok":
+                        rep.violation(f"the constructor builds the node but the operator {sym} raises {by_op[1]} for a {side} operand that is a {name} "
+                                      f"chain nested {depth} deep", {"operator": sym, "chain": name, "depth": depth, "side": side})
+                    elif by_ctor[0] == "ok" and not (wire.cls(by_op[1]) == wire.cls(by_ctor[1]) and wire.expr(by_op[1]) == wire.expr(by_ctor[1])):
+                        rep.violation(f"operator {sym} on a deep operand does not build what the constructor builds", {"operator": sym, "chain": name, "depth": depth})
+
+
 def run(rep: Report, rng, tier: str, known: dict, search: bool = False) -> None:
+    if not search:
+        deep_operands(rep)
     chains(rep, rng)
     augmented(rep, rng)
     check_cases(gen_cases(rng, tier), rep, known)
